@@ -94,7 +94,7 @@ func c25Expect(c *c25Case) (clause, detail string) {
 		}
 	}
 	if !ok || strings.ContainsAny(c.Command, "/\\") {
-		return "command", fmt.Sprintf("%q~[%s]", c.Command, strings.Join(c.Whitelist, ","))
+		return "command", strings.ReplaceAll(fmt.Sprintf("%q~[%s]", c.Command, strings.Join(c.Whitelist, ",")), " ", "\\x20")
 	}
 	for i, a := range c.Args {
 		for _, m := range c25Meta {
